@@ -1945,6 +1945,11 @@ func runC16(c *Ctx) {
 		nstr = 15000
 	}
 	x.strs(nstr)
+	nbytes := 1500
+	if c.Thorough {
+		nbytes = 20000
+	}
+	x.bytesAll(nbytes)
 	for i := 0; i < nsig; i++ {
 		sig := c16GenSig(c, i)
 		if err := sig.write(); err != nil {
